@@ -1,5 +1,6 @@
 import HexProofs.Framework.Program
 import HexProofs.Framework.Gen.AllX
+import HexProofs.Framework.Gen.IndexTrees
 import HexProps.C01
 /-
 C14 – Maintenance operations are idempotent and converge to the batch state.
@@ -17,9 +18,13 @@ followed by raw candles):
   * after ANY program over {append, calculate, purge, recalculate, calculate_index(±i) on computed
     indices} that runs, a final `calculate()` gives exactly the batch result over the raw stream
     seen so far, and raises exactly when the batch run raises (`program_converges_leaf`).
-Not covered here: trees with helpers (`calculate_index(-1)` and `purge` are known to misbehave
-there, see known_findings), the Hexital façade operations `add_indicator` / `remove_indicator`,
-collapsing timeframes; the full statement is `C14_FULL`.
+For TREES (all 27 shipped classes, `CoveredTreeX`): the same five statements (`calculate_idempotent_trees`,
+`recalculate_reproduces_trees`, `purge_restores_raw_trees`, `calculate_index_reproduces_trees` at EVERY index
+`-len ≤ i < len`, index 0 included, and `C14_trees_all`: programs with `calculate_index(±i)` anywhere converge to
+the batch state).  `C14_trees` is the older form that allowed `calculate_index` only for kinds without
+sub-indicators.
+Not covered here: the Hexital façade operations `add_indicator` / `remove_indicator`, collapsing timeframes, an
+explicit `end_index` range; the full statement is `C14_FULL`.
 -/
 namespace Hex.C14
 open Hex Hex.C01
@@ -191,15 +196,68 @@ theorem recalculate_reproduces_trees (k : Kind F) (name : String) (round : Nat) 
   rw [hinv.tree] at he
   exact T.obj_recalculate _ s₁ h1 ((T.engine_resumableAt _ _ _ hinv.res).1 he)
 
+/-- **`calculate_index(i)` reproduces the batch state – every shipped class, every index.**  On the finished state
+of a batch run, `calculate_index(i)` for any `-len ≤ i < len` (index 0 included: there the helpers of a composite run
+their full `calculate()`, which finds nothing to do) leaves every candle – own readings, helper series, `_data`
+series – exactly as it was. -/
+theorem calculate_index_reproduces_trees (k : Kind F) (name : String) (round : Nat) (hk : CoveredTreeX name k)
+    (raw done : List (Candle F)) (hp : RawInput raw) (h : candlesOf (runBatch (mkTop k name round) {} raw) = .ok done)
+    (i : Int) (hlo : -(done.length : Int) ≤ i) (hhi : i < done.length) (act : Int) :
+    candlesOf (IndState.calculateIndex ⟨mkTop k name round, ⟨{}, done⟩, act⟩ i none) = .ok done :=
+  calculateIndex_reproduces hk round raw done hp h i hlo hhi act
+
+/-- **C14 for all covered TREES with `calculate_index` anywhere**: `C14_trees` without its restriction on
+`calculate_index` – after ANY program over {append, calculate, purge, recalculate, calculate_index(±i) on a candle
+that holds a reading} that runs, a final `calculate()` returns iff the batch run over all candles received returns,
+with the same candles. -/
+theorem C14_trees_all (k : Kind F) (name : String) (round : Nat) (hk : CoveredTreeX name k)
+    (init : List (Candle F)) (hinit : RawInput init) (ops : List (Op F)) (s : IndState F)
+    (hruns : Runs ({ tree := mkTop k name round, mgr := { cfg := {}, candles := init } } : IndState F) ops s)
+    (out : List (Candle F)) :
+    candlesOf s.calculate = .ok out ↔
+      candlesOf (runBatch (mkTop k name round) {} (init ++ (ops.map Op.added).flatten)) = .ok out :=
+  program_converges_all hk round init hinit ops s hruns out
+
+/-- `calculate()` again changes nothing – every class, after ANY program (with `calculate_index` anywhere) -/
+theorem calculate_idempotent_trees_all (k : Kind F) (name : String) (round : Nat) (hk : CoveredTreeX name k)
+    (init : List (Candle F)) (hinit : RawInput init) (ops : List (Op F)) (s s₁ : IndState F)
+    (hruns : Runs ({ tree := mkTop k name round, mgr := { cfg := {}, candles := init } } : IndState F) ops s)
+    (h : s.calculate = .ok s₁) : candlesOf s₁.calculate = .ok s₁.mgr.candles := by
+  obtain ⟨T, hT⟩ := program_invariant_all hk round
+  exact T.obj_idempotent _ s s₁ (hT init hinit ops s hruns) h
+
+/-- `purge()` gives back the raw stream – every class, after ANY program -/
+theorem purge_restores_raw_trees_all (k : Kind F) (name : String) (round : Nat) (hk : CoveredTreeX name k)
+    (init : List (Candle F)) (hinit : RawInput init) (ops : List (Op F)) (s : IndState F)
+    (hruns : Runs ({ tree := mkTop k name round, mgr := { cfg := {}, candles := init } } : IndState F) ops s) :
+    s.purge.mgr.candles = init ++ (ops.map Op.added).flatten := by
+  obtain ⟨T, hT⟩ := program_invariant_all hk round
+  have hinv := hT init hinit ops s hruns
+  unfold IndState.purge
+  simp only [hinv.tree]
+  exact T.purge_resumableAt _ _ hinv.res
+
+/-- `recalculate()` reproduces – every class, right after a `calculate()` that returned, after ANY program -/
+theorem recalculate_reproduces_trees_all (k : Kind F) (name : String) (round : Nat) (hk : CoveredTreeX name k)
+    (init : List (Candle F)) (hinit : RawInput init) (ops : List (Op F)) (s s₁ : IndState F)
+    (hruns : Runs ({ tree := mkTop k name round, mgr := { cfg := {}, candles := init } } : IndState F) ops s)
+    (h : s.calculate = .ok s₁) : candlesOf s₁.recalculate = .ok s₁.mgr.candles := by
+  obtain ⟨T, hT⟩ := program_invariant_all hk round
+  have hinv := hT init hinit ops s hruns
+  have h1 := gprogInv_calculate T _ s s₁ hinv h
+  obtain ⟨_, _, he⟩ := IndState.calculate_ok_engine s s₁ h
+  rw [hinv.tree] at he
+  exact T.obj_recalculate _ s₁ h1 ((T.engine_resumableAt _ _ _ hinv.res).1 he)
+
 /-- **C14 at full strength**: every shipped kind (composites included) inside a `Hexital`, the
 whole operation alphabet including `add_indicator` / `remove_indicator`, every timeframe.
-NOT proved: it is false today for trees with helpers (`calculate_index(-1)` hands the negative
-index to helper series; `purge` leaves second-level helper entries) – see known_findings; for
-leaf kinds the standalone-object part is `program_converges_leaf`, for the covered composite
-kinds (VWAP, STDEV, RSI with `calculate_index`; ATR, KC, STDEVTHRES, BBANDS, Supertrend without it,
-because for a tree with sub-indicators `calculate_index(0)` falls back to a full `calculate()` of the
-helpers) `C14_trees`.  Missing: MACD, STOCH, HMA, TSI, ADX, the Hexital façade operations,
-collapsing timeframes. -/
+The standalone-object part on the base timeframe is PROVED for all 27 classes: `C14_trees_all` (programs),
+`calculate_index_reproduces_trees`, `calculate_idempotent_trees`, `purge_restores_raw_trees`,
+`recalculate_reproduces_trees` (the defects that once made it false for trees with helpers –
+`calculate_index(-1)` handing the negative index to helper series, `purge` leaving second-level helper entries –
+are repaired in the library, see known_findings `fixed`).  As a `Prop` the statement below additionally claims
+that the final `calculate()` RETURNS, which is C09's subject (exact ordered field: `C09.X_never_raises`).
+Missing: the Hexital façade operations, collapsing timeframes, an explicit `end_index`. -/
 def C14_FULL (F : Type) [PyF F] : Prop :=
   ∀ (k : Kind F) (name : String) (round : Nat) (init : List (Candle F)) (ops : List (Op F))
     (s : IndState F),
